@@ -101,7 +101,7 @@ def oFrames (st : OSt) : List OFrame → Except String OSt
       let expRsv := if !st.inMsg && st.ext == some true then 4 else 0
       if f.h.rsv != expRsv then .error s!"rsv-{f.h.rsv}-expected-{expRsv}"
       else
-        let (m, ms) := if st.client then (st.masks.headD Mask.zero, st.masks.drop 1) else (Mask.zero, st.masks)
+        let (m, ms) := if st.client then (st.masks.headD f.h.mask, st.masks.drop 1) else (Mask.zero, st.masks)
         if st.client && !st.masks.isEmpty && f.h.mask != m then .error "mask-not-the-drawn-key"   -- (list exhausted: unknown)
         else
           let plain := if st.client then xorSpec f.payload m 0 else f.payload
@@ -136,7 +136,12 @@ def oStep (st : OSt) (tok res : String) (writes : List Bytes) : Except String OS
       if st.failed && (t.head? == some "w" ∨ t.head? == some "wt" ∨ t.head? == some "ff" ∨ t.head? == some "fl") && !failedNow then
         .error "no-error-reported-after-destination-error"
       else
-      if st.failed || failedNow then .ok { st1 with failed := true }
+      -- Reset(dest, state, op) starts a new session (new destination): the sticky error goes with the old one.
+      -- ResetOp does not: it is the same frame stream.
+      if t.head? == some "rs" then .ok { st1 with failed := false }
+      else
+      -- (a failing op drew keys for frames the destination never took: the oracle no longer knows which key is next)
+      if st.failed || failedNow then .ok { st1 with failed := true, masks := [] }
       else
       match oFrames st1 frames with
       | .error e => .error e
